@@ -196,13 +196,24 @@ def dataLoop : Nat → List (W Word) → P (List (W Word))
       | .ok imm => do let _ ← getAny; dataLoop fuel (imm :: acc)
       | .error _ => pure acc.reverse
 
+/-- skip an item the lexer could not read at the head of the stream (nothing else) -/
+def dropBad : P Unit := modify fun st =>
+  match st.items with
+  | .strErr .. :: rest => { st with items := rest }
+  | .unexpected .. :: rest => { st with items := rest }
+  | _ => st
+
 /-- The `.macro` skip loop: consume everything up to and including `.endmacro`. -/
 def macroLoop : Nat → P Unit
   | 0 => pure ()
   | fuel + 1 => do
     -- an unterminated macro is ignored up to the end of the input (`Err(UnexpectedEOF) => break`)
-    if (← get).items.isEmpty then pure ()
-    else
+    -- what the lexer could not read is skipped with the rest of the body (`Err(_) => continue`)
+    match (← get).items with
+    | [] => pure ()
+    | .strErr .. :: _ => do dropBad; macroLoop fuel
+    | .unexpected .. :: _ => do dropBad; macroLoop fuel
+    | _ => do
       let next ← getAny
       if next.kind == .directive && directiveFromStr next.payload == some "EndMacro" then pure ()
       else macroLoop fuel
